@@ -29,7 +29,7 @@ META = {
 }
 
 OPTS = list(itertools.product([True, False], repeat=4))           # eq, order, frozen, unsafe_hash
-BODIES = ['plain', 'eq', 'hash', 'both']
+BODIES = ['plain', 'eq', 'hash', 'both', 'hash_none', 'eq_hash_none']
 FLAGS = [(c, h, r, c2) for c in (True, False) for h in (None, True, False) for r in (True, False) for c2 in (True, False)]
 GRID = list(itertools.product((0, 1, 2), repeat=2))
 
@@ -48,6 +48,13 @@ def body_ns(body):
         def __hash__(self):
             return 42
         ns['__hash__'] = __hash__
+    if body in ('hash_none', 'eq_hash_none'):
+        # written out by the user: explicit unless a user __eq__ stands next to it (then Python would have put it there anyway)
+        ns['__hash__'] = None
+    if body == 'eq_hash_none':
+        def __eq__(self, other):  # noqa: F811
+            return type(other) is type(self) and self.x == other.x
+        ns['__eq__'] = __eq__
     return ns
 
 
@@ -146,7 +153,7 @@ def check_class(pane, res, oi, body, fi, tier):
                 if eq and body in ('plain',) and not (flags[0] is False and flags[1] is True) and pi[i] == pi[j] and not same_p:
                     core.add_violation(res, {'kind': 'equal_but_different_hash', **sig},
                                        f"{cfg}: {grid[i]} == {grid[j]} but their hashes differ", cell, 2)
-                if same_p != same_m and body in ('plain', 'eq') and i != j and (eq or uh):
+                if same_p != same_m and body in ('plain', 'eq', 'hash_none', 'eq_hash_none') and i != j and (eq or uh):
                     core.add_violation(res, {'kind': 'hash_fields_differ_from_mirror', **sig},
                                        f"{cfg}: hash({grid[i]}) == hash({grid[j]}) is {same_p} for pane, {same_m} for the mirror", cell, 2)
     res['evals'] += n * n
